@@ -180,8 +180,23 @@ def mutate(spec, n, live=False):
     if mut == "version":
         raw[0] = r.choice([0, 2, 3, 255])
         return bytes(raw)
+    if mut == "junk_flood":
+        # count boundary on the error path: k messages in a row, each well framed (the next one starts where the
+        # Message Length says) and each impossible to decode, with identifiers of their own
+        k = spec.get("arg") or 16
+        kind = r.choice(["wrong_width", "bad_enum", "bad_family", "non_utf8"])
+        out = bytearray()
+        for i in range(k):
+            one = mutate({"base": spec["base"], "mut": kind, "seed": spec["seed"] + i, "arg": None}, n)
+            one = bytearray(one)
+            one[12:16] = (0x7e100000 + i).to_bytes(4, "big")
+            one[16:20] = (0x7f100000 + i).to_bytes(4, "big")
+            out += one
+        return bytes(out)
     if mut == "non_utf8":
-        code = r.choice([C.ORIGIN_HOST, C.ORIGIN_REALM, C.SESSION_ID, C.PRODUCT_NAME, C.DEST_REALM, C.USER_NAME])
+        code = spec.get("arg") or r.choice([C.ORIGIN_HOST, C.ORIGIN_REALM, C.SESSION_ID, C.PRODUCT_NAME, C.DEST_REALM, C.USER_NAME])
+        if spec.get("drop_user_name"):
+            m = dict(m, avps=[a for a in m["avps"] if a[0] != C.USER_NAME])
         avps = [(a[0], a[1], a[2], b"\xff\xfe\xc0\x80" + bytes(r.getrandbits(8) for _ in range(3)))
                 if a[0] == code else a for a in m["avps"]]
         if not any(a[0] == code for a in m["avps"]):
@@ -528,7 +543,7 @@ class C03(Check):
         knobs["SLEEP_TIMER"] = rng.choice([0.1, 0.3])
         for st_ in strings:
             st_["flood_cap"] = int(max(70, min(2500, 20.0 / knobs["STATE_MACHINE_TICKER"])))
-        return self._later_additions(rng, {"mode": mode, "state": state, "strings": strings, "sched": draw_sched(rng), "knobs": knobs,
+        return self._later_additions(rng, index, {"mode": mode, "state": state, "strings": strings, "sched": draw_sched(rng), "knobs": knobs,
                 "answer_mode": rng.choice(["none", "dup", "bad_hbh", "bad_e2e", "late_dup"]),
                 "election_first": rng.random() < 0.4,
                 "net": {"max_latency": rng.choice([0.0005, 0.003]), "p_fragment": rng.choice([0.0, 0.3, 0.8]),
@@ -536,9 +551,29 @@ class C03(Check):
                 "watchdog": 30, "horizon": 120.0})
 
     @staticmethod
-    def _later_additions(rng, scn):
+    def _later_additions(rng, index, scn):
         # later additions draw from a generator of their own (the stream above stays what it was)
         rng2 = random.Random(rng.getrandbits(48))
+        if index % 8 == 5:
+            # systematic: ONE otherwise valid application message reaches the application (Open, consumer parked)
+            # with exactly one text-typed AVP that is not valid UTF-8; the AVP, the message kind and the presence of
+            # a User-Name are swept by the run index
+            k = index // 8
+            codes = [C.SESSION_ID, C.ORIGIN_HOST, C.ORIGIN_REALM, C.DEST_REALM, C.DEST_HOST, C.USER_NAME, C.PRODUCT_NAME, 281]
+            scn["state"] = "open"
+            scn["strings"] = [{"base": ["app_req", "app_req_dh", "app_ans"][k % 3], "mut": "non_utf8", "seed": rng2.getrandbits(30),
+                               "arg": codes[(k // 3) % len(codes)], "drop_user_name": (k // 24) % 2 == 0, "flood_cap": 2500,
+                               "pre_valid": False, "post_valid": rng2.random() < 0.5, "gap": 0.0}]
+            scn["mode"] = rng2.choice(["CLIENT", "SERVER"])
+            return scn
+        if index % 8 == 1:
+            # systematic: a run of 15..300 well-framed messages none of which can be decoded, on an open connection
+            scn["state"] = rng2.choice(["open", "open_traffic"])
+            scn["strings"] = [{"base": rng2.choice(["app_req", "app_ans", "dwr", "app_req_dh"]), "mut": "junk_flood",
+                               "seed": rng2.getrandbits(30), "arg": [15, 16, 17, 33, 64, 65, 300][(index // 8) % 7],
+                               "flood_cap": 2500, "pre_valid": rng2.random() < 0.5, "post_valid": rng2.random() < 0.5, "gap": 0.0}]
+            scn["mode"] = rng2.choice(["CLIENT", "SERVER"])
+            return scn
         if rng2.random() < 0.25:
             # single-bit corruption: exactly one flag bit (V, M or P) of one AVP of an otherwise valid, fully
             # addressed request is flipped; everything else, lengths included, stays as it was
@@ -585,7 +620,10 @@ class C03(Check):
         if state == "closing":
             peerb["answer_dpr"] = False
         nfl = sum(len(mutate(s_, i_ + 1)) // 20 for i_, s_ in enumerate(scn["strings"]) if s_["mut"] == "flood")
+        njunk = sum((s_.get("arg") or 16) for s_ in scn["strings"] if s_["mut"] == "junk_flood")
         budget = {}
+        if njunk:
+            budget = {"horizon": scn.get("horizon", 120.0) + 60.0, "max_steps": 6_000_000 + 80_000 * njunk}
         if nfl:
             # the state machine consumes one message per tick: give the run the time and the steps for it
             budget = {"horizon": scn.get("horizon", 120.0) + 3.0 * nfl * scn["knobs"].get("STATE_MACHINE_TICKER", 0.01) + 20.0,
@@ -595,6 +633,7 @@ class C03(Check):
         knobs = w.world.knobs
         tick = knobs["STATE_MACHINE_TICKER"]
         nflood = sum(len(mutate(s_, i_ + 1)) // 20 for i_, s_ in enumerate(scn["strings"]) if s_["mut"] == "flood")
+        nflood += sum(40 * (s_.get("arg") or 16) for s_ in scn["strings"] if s_["mut"] == "junk_flood")
         D = knobs["SLEEP_TIMER"] + 2 * knobs["TRACKING_SOCKET_EVENTS_TIMEOUT"] + 2.0 + 40 * tick + 400000 * sim.quantum + \
             nflood * (600 * sim.quantum + 1.2 * tick)
         violations = []
